@@ -69,6 +69,7 @@ type freq struct {
 	peer                 *fcgiPeer
 	script               *respScript
 	expectFcgi           bool
+	target               string // C19: request target sent instead of prefix+path?query (absolute-form without a path)
 	scriptName, pathInfo string
 	staticTok            string // token of the fixture file that must never be returned
 }
@@ -88,7 +89,8 @@ type respScript struct {
 }
 
 type fcgiRig struct {
-	limit       int // body limit on /app (0 = none)
+	catchAll    bool // C19: a further rule "fastcgi / addr" without extension
+	limit       int  // body limit on /app (0 = none)
 	twoRules    bool
 	w           *World
 	c           *sim.Ctl
@@ -423,6 +425,11 @@ func runFcgi(mode string) sim.RigFunc {
 			// a second rule on the same base path, for another kind of script
 			b.WriteString("\tfastcgi /app 10.8.0.1:9000 {\n\t\text .cgi\n\t\tsplit .cgi\n\t\tenv APP_ENV prod\n\t\tenv REQ_HOST {host}\n\t}\n")
 		}
+		r.catchAll = mode == "C19" && r.prefix == "" && st.Draw(2) == 0
+		if r.catchAll {
+			// everything else goes to the responder too (no extension, no split string)
+			b.WriteString("\tfastcgi / 10.8.0.1:9000\n")
+		}
 		b.WriteString("}\n")
 		text := b.String()
 		c.Params["prefix"] = r.prefix
@@ -559,6 +566,11 @@ func (r *fcgiRig) addReq(i int) {
 	if st.Draw(3) == 0 {
 		q.hdrs = append(q.hdrs, [2]string{"X-Multi", "one"}, [2]string{"X-Multi", "two"})
 	}
+	if r.mode == "C19" && r.catchAll && st.Draw(4) == 0 {
+		// a request target without a path: the handlers see an empty URL.Path
+		q.target = []string{"http://f.test", "http://f.test?x=1", "http://f.test?rid=9"}[st.Draw(3)]
+		r.c.Fault("hostile-request-target")
+	}
 	if r.mode == "C19" && st.Draw(4) == 0 {
 		// a header whose name alone does not fit a FastCGI record
 		q.hdrs = append(q.hdrs, [2]string{"X-" + strings.Repeat("n", []int{65470, 65488, 65500, 70000}[st.Draw(4)]), "v"})
@@ -627,7 +639,11 @@ func (r *fcgiRig) addReq(i int) {
 	q.script = sc
 	// the HTTP request bytes
 	var rb strings.Builder
-	fmt.Fprintf(&rb, "%s %s%s?%s HTTP/1.1\r\nHost: f.test\r\n", q.method, r.prefix, q.path, q.query)
+	if q.target != "" {
+		fmt.Fprintf(&rb, "%s %s HTTP/1.1\r\nHost: f.test\r\n", q.method, q.target)
+	} else {
+		fmt.Fprintf(&rb, "%s %s%s?%s HTTP/1.1\r\nHost: f.test\r\n", q.method, r.prefix, q.path, q.query)
+	}
 	for _, h := range q.hdrs {
 		fmt.Fprintf(&rb, "%s: %s\r\n", h[0], h[1])
 	}
